@@ -715,18 +715,23 @@ func runC09(r *report.Report) {
 	cfgs := []c{{"core-depth11", c09params{Depth: 11, QOS: []int{1, 2}}, 0}, {"faults-depth8", c09params{Depth: 8, QOS: []int{0, 1, 2}, Faults: true}, 0},
 		{"extra-depth7", c09params{Depth: 7, QOS: []int{1}, Extra: true, Faults: true}, 0}, {"core-reordered", c09params{Depth: 7, QOS: []int{1, 2}, Faults: true}, 1}, {"core-reordered2", c09params{Depth: 5, QOS: []int{1, 2}}, 2}}
 	if r.Tier == "thorough" {
-		cfgs = []c{{"core-depth14", c09params{Depth: 14, QOS: []int{1, 2}}, 0}, {"faults-depth10", c09params{Depth: 10, QOS: []int{0, 1, 2}, Faults: true}, 0},
-			{"extra-depth9", c09params{Depth: 9, QOS: []int{1, 2}, Extra: true, Faults: true}, 0}, {"core-reordered", c09params{Depth: 8, QOS: []int{1, 2}, Faults: true}, 1}, {"core-reordered2", c09params{Depth: 7, QOS: []int{1, 2}}, 2}}
+		cfgs = []c{{"core-depth13", c09params{Depth: 13, QOS: []int{1, 2}}, 0}, {"faults-depth9", c09params{Depth: 9, QOS: []int{0, 1, 2}, Faults: true}, 0},
+			{"extra-depth8", c09params{Depth: 8, QOS: []int{1, 2}, Extra: true, Faults: true}, 0}, {"core-reordered", c09params{Depth: 8, QOS: []int{1, 2}, Faults: true}, 1}, {"core-reordered2", c09params{Depth: 6, QOS: []int{1, 2}}, 2}}
 	}
 	rb := 3
 	if r.Tier == "thorough" {
 		rb = 4
 	}
-	for _, closer := range []string{"none", "close", "drop", "disconnect"} {
+	races := func() {
+	for _, closer := range []string{"none", "drop", "close", "disconnect"} {
 		js, _ := json.Marshal(c09race{Closer: closer, Pubs: 2})
 		st := explore.Explore(explore.Config{Harness: "C09.race", Params: string(js), Bound: rb, Workers: report.Workers(), Deadline: r.Deadline()})
 		r.AddExploration("race-"+closer, "schedule", fmt.Sprintf("a Publish (QoS 1/2) racing with a second call (Publish QoS 0/1/2, Subscribe or Unsubscribe) against an immediately acknowledging broker thread, third party: %s; every schedule within delay bound %d", closer, rb), st,
 			"one execution = one schedule; all calls return, futures resolve (and complete when nothing interferes); non-trivial = executions", "raced")
+	}
+	}
+	if r.Tier != "thorough" {
+		races()
 	}
 	for _, cf := range cfgs {
 		st := explore.Explore(explore.Config{Harness: "C09.hist", Params: mk(cf.p), Bound: cf.bound, Workers: report.Workers(), Deadline: r.Deadline()})
@@ -743,4 +748,7 @@ func runC09(r *report.Report) {
 	r.AddExploration("end-to-end", "history", fmt.Sprintf("real client library (publisher, subscriber) <-> real broker over codec pipes: all histories of depth %d over {publish QoS 1/2, drop / write failure / broker write failure on either connection, reconnect with the same session}, then both sides reconnect", de), ste,
 		"Publish and Close return, a client can reconnect with its session, every publish future resolves once both sides are connected and idle again; non-trivial = histories with a publish / with a fault", "published", "fault")
 
+	if r.Tier == "thorough" {
+		races() // the largest parts last: the internal budget, if reached, cuts only them
+	}
 }
